@@ -8,6 +8,7 @@ import (
 	"github.com/tellor-io/layer/daemons/pricefeed/types"
 	servertypes "github.com/tellor-io/layer/daemons/server/types"
 	"github.com/tellor-io/layer/lib/metrics"
+	"github.com/tellor-io/layer/lib/simhook"
 
 	"github.com/cosmos/cosmos-sdk/telemetry"
 )
@@ -34,9 +35,11 @@ func NewExchangeToPrice(marketId uint32) *ExchangeToPrice {
 // the timestamp on existing prices.
 func (etp *ExchangeToPrice) UpdatePrices(updates []*servertypes.ExchangePrice) {
 	for _, exchangePrice := range updates {
+		simhook.Yield("etp.update.iter")
 		exchangeId := exchangePrice.ExchangeId
 		priceTimestamp, exists := etp.exchangeToPriceTimestamp[exchangeId]
 		if !exists {
+			simhook.Yield("etp.update.newExchange")
 			priceTimestamp = types.NewPriceTimestamp()
 			etp.exchangeToPriceTimestamp[exchangeId] = priceTimestamp
 		}
@@ -67,6 +70,7 @@ func (etp *ExchangeToPrice) GetValidPrices(
 ) []uint64 {
 	validExchangePricesForMarket := make([]uint64, 0, len(etp.exchangeToPriceTimestamp))
 	for exchangeId, priceTimestamp := range etp.exchangeToPriceTimestamp {
+		simhook.Yield("etp.read.iter")
 		validity := metrics.Valid
 
 		// PriceTimestamp returns price if the last update time is valid.
